@@ -28,7 +28,7 @@
 -/
 import FcProps.KTieChainArr
 import FcLemmas.KTieChainALoop
-import FcLemmas.KTieFamLoop
+import FcLemmas.KTieLoopCore
 
 set_option linter.unusedSimpArgs false
 set_option linter.unusedVariables false
